@@ -204,8 +204,9 @@ pub fn check(c: &Case, obs: &mut Obs) -> Verdict {
         if ms.len() == 2 && ms[0].c != ms[1].c && !ms[1].a.is_zero() {
             two_cur_line = true;
         }
-        for m in ms {
-            if !m.is_gbp() {
+        for (slot, m) in ms.into_iter().enumerate() {
+            // a zero FEES/TAX clause (second money field) is zero in any currency and needs no rate
+            if !m.is_gbp() && !(slot == 1 && m.a.is_zero()) {
                 cur_months.entry(m.c.clone()).or_default().insert((t.date.year(), t.date.month()));
                 needed.push((m.c.clone(), t.date.year(), t.date.month()));
             }
@@ -254,8 +255,10 @@ pub fn check(c: &Case, obs: &mut Obs) -> Verdict {
             let mut t2 = t.clone();
             for m in t2.monies_mut() {
                 if !m.is_gbp() {
-                    let r = table[&(m.c.clone(), t.date.year(), t.date.month())];
-                    *m = Money::gbp(m.a / r);
+                    match table.get(&(m.c.clone(), t.date.year(), t.date.month())) {
+                        Some(r) => *m = Money::gbp(m.a / *r),
+                        None => *m = Money::gbp(Decimal::ZERO), // only a zero FEES/TAX amount gets here
+                    }
                 }
             }
             t2
@@ -292,10 +295,10 @@ pub struct BadFile {
     pub good_first: bool,
 }
 
-const RULE_BAD: &str = "one rate file that is mislabelled (period != file name), has a zero/negative/non-numeric rate, an unknown currency code (must be ignored, not an error), an unparsable name or content, alone or after a good file; non-trivial = every case; distinct by parameters";
+const RULE_BAD: &str = "one rate file that is mislabelled (period != file name, or a period that starts in the named month and ends in another), has a zero/negative/non-numeric rate (also on a row with an unknown currency code), an unknown currency code with a valid rate (must be ignored, not an error), an unparsable name or content, alone or after a good file; non-trivial = every case; distinct by parameters";
 
 fn strat_bad(_t: Tier) -> BoxedStrategy<BadFile> {
-    (2014i32..2028, 1u32..13, 0u8..8, any::<bool>(), any::<bool>()).prop_map(|(year, month, kind, prefixed, good_first)| BadFile { year, month, kind, prefixed, good_first }).boxed()
+    (2014i32..2028, 1u32..13, 0u8..12, any::<bool>(), any::<bool>()).prop_map(|(year, month, kind, prefixed, good_first)| BadFile { year, month, kind, prefixed, good_first }).boxed()
 }
 
 pub fn check_bad(b: &BadFile, obs: &mut Obs) -> Verdict {
@@ -319,9 +322,35 @@ pub fn check_bad(b: &BadFile, obs: &mut Obs) -> Verdict {
             fxtable::make_xml(b.year, b.month, &good_rows)
         }
         6 => "this is not xml".to_string(),
-        _ => {
+        7 => {
             name = format!("{:04}-13.xml", b.year);
             fxtable::make_xml(b.year, 12, &good_rows)
+        }
+        // a non-positive rate is a non-positive rate whatever its row's currency code
+        8 => fxtable::make_xml(b.year, b.month, &[("USD".into(), "1.5".into()), ("QQQ".into(), "0".into())]),
+        9 => fxtable::make_xml(b.year, b.month, &[("QQQ".into(), "-2".into()), ("USD".into(), "1.5".into())]),
+        // the period starts in the month of the file name but ends in another month / year
+        10 => {
+            let good = fxtable::make_xml(b.year, b.month, &good_rows);
+            let (ey, em) = if b.month == 12 { (b.year + 1, 1) } else { (b.year, b.month + 1) };
+            const MON: [&str; 12] = ["Jan", "Feb", "Mar", "Apr", "May", "Jun", "Jul", "Aug", "Sep", "Oct", "Nov", "Dec"];
+            match good.find(" to ") {
+                Some(i) => {
+                    let end = good[i..].find('"').map(|j| i + j).unwrap_or(good.len());
+                    format!("{} to 28/{}/{}{}", &good[..i], MON[em as usize - 1], ey, &good[end..])
+                }
+                None => good,
+            }
+        }
+        _ => {
+            let good = fxtable::make_xml(b.year, b.month, &good_rows);
+            match good.find(" to ") {
+                Some(i) => {
+                    let end = good[i..].find('"').map(|j| i + j).unwrap_or(good.len());
+                    format!("{} to 31/Dec/{}{}", &good[..i], b.year + 1, &good[end..])
+                }
+                None => good,
+            }
         }
     };
     if obs.sample.is_none() {
